@@ -96,6 +96,22 @@ var zzCancelWrappers = []struct{ name, pre, post string }{
 	{"finally-block", "try { } catch e { } finally { ", " }"},
 	{"deferred", "func() { defer func() { ", " }() }()"},
 	{"nested-try", "try { try { ", " } catch e1 { p(96) } } catch e2 { p(95) }"},
+	// the core runs while a statement stores its results: inside the index of an assignment target
+	{"ok-target-of-receive-statement", "zzc = make(chan int64, 1); zzc <- 7; zzm = {}; zzv, zzm[func() { ", " }()] = <-zzc"},
+	{"value-target-of-receive-statement", "zzc = make(chan int64, 1); zzc <- 7; zzm = {}; zzm[func() { ", " }()] = <-zzc"},
+	{"assignment-target-index", "zzm = {}; zzm[func() { ", " }()] = 1"},
+	{"multi-assignment-target-index", "zzm = {}; zzx, zzm[func() { ", " }()] = 1, 2"},
+	{"map-item-form-target-index", "zzm = {}; zzx, zzm[func() { ", " }()] = zzm[1]"},
+	{"op-assignment-target-index", "zzm = {0: 1}; zzm[func() { ", "; return 0 }()] += 1"},
+	{"delete-key", "zzm = {}; delete(zzm, func() { ", " }())"},
+	{"switch-case-expression", "switch 1 { case func() { ", " }(): p(99) }"},
+	{"for-in-collection", "for zzx in func() { ", "; return [1] }() { p(99) }"},
+	{"c-for-post", "zzn = 0; for zzi = 0; zzn < 1; func() { ", " }() { zzn = 1 }"},
+	{"send-value", "zzc = make(chan int64, 1); zzc <- func() { ", "; return 1 }()"},
+	{"throw-value", "throw func() { ", "; return 1 }()"},
+	{"map-literal-value", "zzm = {\"k\": func() { ", " }()}"},
+	{"make-length", "make([]int64, func() { ", "; return 1 }())"},
+	{"member-of-call", "zzm = {}; zzm.k = func() { ", " }()"},
 }
 
 func zzCancelRun(core, wrapper, cancelAt int, blocking bool) {
